@@ -54,6 +54,15 @@ def spec_items(tier):
     yield from build.enum_mdps(1, AS, 0, R3, [(), (0,)], build.INIT_MENU[1], G)
     # undiscounted value iteration needs ~1/p sweeps through a probability-p exit: tiny probabilities only when discounted
     yield from (it for it in build.edge_mdps() if it[5] > 0 and (it[5] < 1 or not build.has_tiny_probability(it)))
+    # an explicitly absorbing state with a declared exit to a state that is reachable only through it (K4 class when the
+    # state list is inferred; a perfectly ordinary problem when the lists are given)
+    one = F(1)
+    for g in (F(9, 10), F(1)):
+        for exit_d in (((2, one),), ((1, F(1, 2)), (2, F(1, 2)))):
+            for back in (2, 0):
+                for two in (False, True):
+                    row0 = (('a', ((1, one),), F(-1)),) + ((('b', ((0, F(1, 2)), (1, F(1, 2))), F(-1)),) if two else ())
+                    yield ('mdp', 3, (row0, (('a', exit_d, F(0)),), (('a', ((back, one),), F(-1) if back == 0 else F(0)),)), (1,), ((0, one),), g)
     if tier == 'quick':
         yield from build.enum_mdps(2, AS, 1, R3, [(), (1,)], [build.INIT_MENU[2][0], build.INIT_MENU[2][2]],
                                    [F(9, 10), F(1)])
@@ -215,6 +224,21 @@ def check(item, tier):
         warnings.simplefilter('ignore')
         np.seterr(all='ignore')
         mdp = build.SpecMDP(spec, slabel, alabel, explicit)
+        # K4 class (recorded for C06, same root cause): the state list is inferred, reachability does not expand an explicitly
+        # absorbing state, and that state has a positive-probability successor reachable only through it -- building the arrays
+        # raises KeyError, so no planner can run.  Attributed only if the arrays really raise; everything else is judged as usual.
+        if not explicit:
+            try:
+                listed = {mdp.s_of[ls] for ls in mdp.state_list}
+            except Exception:
+                listed = None
+            if listed is not None and listed in (spec.reachable(expand_initial_absorbing=True), spec.reachable(expand_initial_absorbing=False)) \
+                    and any(ns not in listed for s in listed for a in spec.acts[s] for ns in spec.T[s][a]):
+                try:
+                    mdp.transition_matrix, mdp.reward_matrix
+                except KeyError as e:
+                    r.violation('k4:arrays_raise_keyerror_for_successor_outside_inferred_state_list', {'error': repr(e)[:200]}, item, finding='K4')
+                    return r
         outs = {}
         eps2 = EPS_OTHER[ei]
         runs = [('vi_vec', 'vectorized', 1e-10), ('vi_dict', 'dict', 1e-10),
